@@ -152,6 +152,7 @@ func main() {
 	seed := flag.Uint64("seed", 1, "PRNG seed")
 	outp := flag.String("out", "", "output file (default stdout)")
 	corpus := flag.String("corpus", "", "corpus file: op \\t args lines replayed first")
+	corpusOnly := flag.Bool("corpusonly", false, "replay the corpus and stop (the generators then run in a process of their own)")
 	replay := flag.String("replay", "", "run one case: op \\t args")
 	syncf := flag.Bool("sync", false, "announce each case on stderr before running it")
 	flag.Parse()
@@ -194,6 +195,12 @@ func main() {
 			os.Exit(2)
 		}
 		g.Stats["corpus"] = g.n
+	}
+	if *corpusOnly {
+		g.rerunSample()
+		g.out.Flush()
+		fmt.Fprintf(os.Stderr, "STAT\tcorpus\t%d\n", g.Stats["corpus"])
+		return
 	}
 	f(g)
 	g.rerunSample()
